@@ -528,15 +528,22 @@ class Directory(object):
                                 ' an computation %s ', subscriber, computation)
 
     def register_replica(self, replica: ComputationName, agent: AgentName):
-        self.discovery.register_replica(
-            replica, agent, publish=False)
+        try:
+            self.discovery.register_replica(
+                replica, agent, publish=False)
+        except UnknownComputation:
+            # The computation has been un-registered while the replica
+            # publication was on its way: there is nothing to replicate.
+            self.logger.warning('Ignoring replica of unknown computation %s '
+                                'on %s', replica, agent)
+            return
         for interested in self._subscription_replicas[replica]:
             self.directory_computation.notify_replica_registered(
                 interested, replica, agent)
 
     def unregister_replica(self, replica: ComputationName, agent: AgentName):
         try:
-            self.discovery.unregister_replica(replica, agent)
+            self.discovery.unregister_replica(replica, agent, publish=False)
         except (KeyError, UnknownComputation):
             return
         # notify interested agents
@@ -1476,10 +1483,10 @@ class Discovery(object):
                     self.logger.debug('No callback left for %s, unsubscribe '
                                       'on directory', replica)
                     self.discovery_computation.send_to_directory(
-                        SubscribeComputationMessage(replica, False))
+                        SubscribeReplicaMessage(replica, False))
                     # remove all knowledge of current replicas as we are not
                     #  subscribed any more
-                    self._replicas_data.pop(replica)
+                    self._replicas_data.pop(replica, None)
             elif cb is not None:
                 raise ValueError(
                     'No corresponding callback found for replica %s : %s',
@@ -1489,7 +1496,7 @@ class Discovery(object):
                 SubscribeReplicaMessage(replica, False))
             # remove all knowledge of current replicas as we are not
             #  subscribed any more
-            self._replicas_data.pop(replica)
+            self._replicas_data.pop(replica, None)
         return removed
 
     def replica_agents(self, replica: ComputationName) -> Set[AgentName]:
